@@ -33,6 +33,8 @@ pub enum Action {
     Liquidate { liquidator: usize, liquidatee: usize, asset: usize, liab: usize, amt: u64 },
     Bankruptcy { signer: Signer, u: usize, b: usize },
     Accrue { b: usize },
+    /// the permissionless price-cache crank of a bank (reads the oracle, must not touch interest)
+    PulsePriceCache { b: usize },
     CollectFees { b: usize },
     /// risk admin's token-less write-off: repay_all signed by the risk admin
     TokenlessRepay { u: usize, b: usize },
@@ -178,6 +180,12 @@ pub fn user_ix(w: &World, s: &Store, a: &Action, signer: Pubkey) -> Option<Ix> {
             ix::handle_bankruptcy(g, signer, bk.key, acct(*u), bk.token_program, with_mint(w, *b, rem))
         }
         Action::Accrue { b } => ix::accrue(g, w.banks[*b].key),
+        Action::PulsePriceCache { b } => {
+            let k = w.banks[*b].key;
+            // the bank's oracle accounts (without the bank itself)
+            let rem: Vec<_> = w.observation(s, &k).into_iter().skip(1).collect();
+            ix::pulse_bank_price_cache(g, k, rem)
+        }
         Action::CollectFees { b } => {
             let bk = &w.banks[*b];
             ix::collect_bank_fees(g, bk.key, bk.fee_ata, bk.token_program, w.mint_meta(bk))
@@ -239,7 +247,7 @@ pub fn default_signer(w: &World, a: &Action) -> Option<Pubkey> {
         }
         Action::Liquidate { liquidator, .. } => w.users[*liquidator].authority,
         Action::Bankruptcy { signer, u, .. } => signer_key(w, signer, Some(*u)),
-        Action::Accrue { .. } | Action::CollectFees { .. } => w.payer,
+        Action::Accrue { .. } | Action::CollectFees { .. } | Action::PulsePriceCache { .. } => w.payer,
         Action::TokenlessRepay { .. } | Action::Purge { .. } | Action::ForceTokenlessComplete { .. } => w.roles.risk,
         Action::Transfer { u } | Action::TransferPda { u } | Action::CloseAccount { u } | Action::CloseOriginal { u } => w.users[*u].authority,
         Action::WithVaultSwap { base, .. } => return default_signer(w, base),
